@@ -79,7 +79,7 @@ def atomics_map(R, P, rule="ATOMIC-MAP"):
                 pos = [1, 3] if op == "compare_exchange" else [1]
                 used = []
                 for i in pos:
-                    x = RU.uncast(f, f.d(a[i]))
+                    x = RU.origin(f, f.d(a[i]))  # in place, or through a local that holds the translated order
                     used.append(f.show(RU.uncast(f, RU.arg(f, x, 0))) if x is not None and x["k"] == "call" and x.get("callee") == "aws_atomic_priv_xlate_order" else "<%s>" % f.show(x))
                 obj = f.show(f.d(a[0]))
                 ok = used == oparams and f.params[0]["n"] in obj
